@@ -207,6 +207,10 @@ func runCrashCase(c *crashCase) (impl, pred string) {
 	// ---- start
 	r, el := timed(12*time.Second, func() error { _, err := client.Start(); return err })
 	note("start", r, el, 6*time.Second)
+	if r == "hang" {
+		// Start never returned (it holds the client lock): nothing else on this client can be asked without blocking too
+		return "start=hang", "FAIL:start-hang"
+	}
 	var kit Kit
 	var cp plugin.ClientProtocol
 	crashed := false
